@@ -2,10 +2,695 @@
 #pragma once
 namespace vs
 {
-template <class FO>
-void VM<FO>::do_log_typed(int, int, Op const&)
+constexpr int N_TYPED_SITES = 44;
+
+inline std::string typed_sanitize(std::string const& s)
 {
+  // BackendOptions' default check_printable_char: ' '..'~' and '\n' are printable, the rest becomes \xHH
+  bool any = false;
+  for (char c : s)
+  {
+    if (!((c >= ' ' && c <= '~') || c == '\n'))
+    {
+      any = true;
+    }
+  }
+  if (!any)
+  {
+    return s;
+  }
+  static char const hex[] = "0123456789ABCDEF";
+  std::string o;
+  for (char c : s)
+  {
+    if ((c >= ' ' && c <= '~') || c == '\n')
+    {
+      o.push_back(c);
+    }
+    else
+    {
+      o += "\\x";
+      o.push_back(hex[(c >> 4) & 0xF]);
+      o.push_back(hex[c & 0xF]);
+    }
+  }
+  return o;
 }
+
+inline std::string typed_str(Rng& r, size_t maxlen, int flavour)
+{
+  // flavour 0 printable, 1 may be empty, 2 embedded NUL, 3 non-printable bytes
+  if (flavour == 1 && r.chance(1, 2))
+  {
+    return {};
+  }
+  size_t n = static_cast<size_t>(r.range(flavour == 1 ? 0 : 1, static_cast<int64_t>(maxlen)));
+  std::string s = payload(r.next(), n);
+  if (flavour == 2 && n >= 2)
+  {
+    s[r.below(static_cast<uint32_t>(n))] = '\0';
+  }
+  if (flavour == 3 && n >= 1)
+  {
+    for (int k = 0; k < 2; ++k)
+    {
+      char c = static_cast<char>(r.pick<int>({1, 7, 9, 27, 127, 200, 255, 13}));
+      s[r.below(static_cast<uint32_t>(n))] = c;
+    }
+  }
+  return s;
+}
+
+enum TypedEnum : int
+{
+  TE_ZERO = 0,
+  TE_ONE = 1,
+  TE_BIG = 1 << 20,
+  TE_NEG = -7
+};
+
+inline int format_as(TypedEnum e) { return static_cast<int>(e); }
+
+// deferred-format user type, trivially copyable: its formatter must run on the backend thread
+struct TcDeferred
+{
+  int64_t a;
+  double b;
+  char tag[8];
+};
+// direct-format user type: formatted at the call site by design
+struct DirectType
+{
+  std::string name;
+  int v;
+};
+// deferred-format user type whose copy constructor allocates (excluded from C11 by its documented design)
+struct AllocDeferred
+{
+  std::string s;
+  std::vector<int> v;
+};
+} // namespace vs
+
+template <>
+struct fmtquill::formatter<vs::TcDeferred>
+{
+  constexpr auto parse(format_parse_context& ctx) { return ctx.begin(); }
+  auto format(vs::TcDeferred const& t, format_context& ctx) const
+  {
+    if (vs::g_vm && sim::active())
+    {
+      vs::g_vm->record(vs::EV_FORMATTER_RAN, sim::self_id(), 0);
+    }
+    return fmtquill::format_to(ctx.out(), "TC[{} {:.4f} {}]", t.a, t.b, std::string_view{t.tag, strnlen(t.tag, sizeof(t.tag))});
+  }
+};
+template <>
+struct quill::Codec<vs::TcDeferred> : quill::DeferredFormatCodec<vs::TcDeferred>
+{
+};
+template <>
+struct fmtquill::formatter<vs::DirectType>
+{
+  constexpr auto parse(format_parse_context& ctx) { return ctx.begin(); }
+  auto format(vs::DirectType const& t, format_context& ctx) const
+  {
+    if (vs::g_vm && sim::active())
+    {
+      vs::g_vm->record(vs::EV_FORMATTER_RAN, sim::self_id(), 1);
+    }
+    return fmtquill::format_to(ctx.out(), "DT<{}:{}>", t.name, t.v);
+  }
+};
+template <>
+struct quill::Codec<vs::DirectType> : quill::DirectFormatCodec<vs::DirectType>
+{
+};
+template <>
+struct fmtquill::formatter<vs::AllocDeferred>
+{
+  constexpr auto parse(format_parse_context& ctx) { return ctx.begin(); }
+  auto format(vs::AllocDeferred const& t, format_context& ctx) const
+  {
+    if (vs::g_vm && sim::active())
+    {
+      vs::g_vm->record(vs::EV_FORMATTER_RAN, sim::self_id(), 0);
+    }
+    return fmtquill::format_to(ctx.out(), "AD({}|{})", t.s, t.v.size());
+  }
+};
+template <>
+struct quill::Codec<vs::AllocDeferred> : quill::DeferredFormatCodec<vs::AllocDeferred>
+{
+};
+
+namespace vs
+{
+// One typed statement: values from the plan's argument seed, expected text = call-site formatting (+ sanitisation),
+// allocation counters around the real LOG_INFO macro, then the arguments are overwritten and destroyed.
+#define VS_TSITE(C11OK, FMTSTR, ...)                                                                          \
+  do                                                                                                          \
+  {                                                                                                           \
+    c11ok = (C11OK);                                                                                          \
+    suppress_formatter_events = true;                                                                         \
+    expected = typed_sanitize(fmtquill::format("#{}# " FMTSTR, id, __VA_ARGS__));                             \
+    suppress_formatter_events = false;                                                                        \
+    begin_invoke();                                                                                           \
+    sim::AllocCounters const before = sim::alloc_counters();                                                  \
+    QUILL_LOG_INFO(lg, "#{}# " FMTSTR, id, __VA_ARGS__);                                                      \
+    sim::AllocCounters const after = sim::alloc_counters();                                                   \
+    mallocs = after.mallocs - before.mallocs;                                                                 \
+    mmaps = after.mmaps - before.mmaps;                                                                       \
+  } while (0)
+
+template <class FO>
+void VM<FO>::do_log_typed(int tid, int opi, Op const& op)
+{
+  Slot* s = slot_of(op.v[0]);
+  if (!s || !s->valid)
+  {
+    return;
+  }
+  Lg* lg = s->lg;
+  int64_t const id = static_cast<int64_t>(tid) * 1000000 + opi;
+  int const site = static_cast<int>(op.v[1] % N_TYPED_SITES);
+  Rng r(static_cast<uint64_t>(op.v[3]));
+  std::string expected;
+  bool c11ok = true;
+  uint64_t mallocs = 0, mmaps = 0;
+  size_t const cap_before = thread_logged[static_cast<size_t>(tid)] ? Fe::get_thread_local_queue_capacity() : 0;
+  bool const first_call = !thread_logged[static_cast<size_t>(tid)];
+  auto begin_invoke = [&]()
+  {
+    Ev& inv = record(EV_LOG_INVOKE, id, op.v[0], 4, 3);
+    inv.s = expected;
+    inv.s2 = std::to_string(100 + site) + ",0";
+  };
+  auto& suppress_formatter_events = suppress_formatter;
+  // value helpers
+  auto i64 = [&]() -> int64_t
+  { return r.pick<int64_t>({0, 1, -1, INT64_MAX, INT64_MIN, static_cast<int64_t>(r.next()), r.range(-1000, 1000)}); };
+  auto u64 = [&]() -> uint64_t { return r.pick<uint64_t>({0ull, 1ull, UINT64_MAX, r.next(), static_cast<uint64_t>(r.below(1000))}); };
+  auto dbl = [&]() -> double
+  {
+    return r.pick<double>({0.0, -0.0, 1.5, -2.25, 1e300, -1e-300, std::numeric_limits<double>::quiet_NaN(),
+                           std::numeric_limits<double>::infinity(), -std::numeric_limits<double>::infinity(),
+                           std::numeric_limits<double>::denorm_min(), std::numeric_limits<double>::max(),
+                           static_cast<double>(r.range(-100000, 100000)) / 7.0});
+  };
+  int const sflav = static_cast<int>(r.below(4));
+
+  switch (site)
+  {
+  case 0:
+  {
+    int8_t a = static_cast<int8_t>(i64());
+    uint8_t b = static_cast<uint8_t>(u64());
+    int16_t c = static_cast<int16_t>(i64());
+    uint16_t d = static_cast<uint16_t>(u64());
+    VS_TSITE(true, "{} {} {} {}", a, b, c, d);
+    break;
+  }
+  case 1:
+  {
+    int32_t a = static_cast<int32_t>(i64());
+    uint32_t b = static_cast<uint32_t>(u64());
+    int64_t c = i64();
+    uint64_t d = u64();
+    VS_TSITE(true, "{} {:x} {:+} {:>22}", a, b, c, d);
+    break;
+  }
+  case 2:
+  {
+    bool a = r.chance(1, 2);
+    char b = static_cast<char>(r.range('!', '~'));
+    long long c = i64();
+    unsigned long long d = u64();
+    VS_TSITE(true, "{} {} {} {}", a, b, c, d);
+    break;
+  }
+  case 3:
+  {
+    double a = dbl(), b = dbl();
+    float c = static_cast<float>(dbl());
+    VS_TSITE(true, "{} {:.3f} {}", a, b, c);
+    break;
+  }
+  case 4:
+  {
+    double a = dbl();
+    long double b = static_cast<long double>(dbl());
+    float c = r.pick<float>({0.0f, std::numeric_limits<float>::infinity(), std::numeric_limits<float>::quiet_NaN(), 3.25f, -1e-30f});
+    VS_TSITE(true, "{:e} {} {:g}", a, b, c);
+    break;
+  }
+  case 5:
+  {
+    TypedEnum e = r.pick<TypedEnum>({TE_ZERO, TE_ONE, TE_BIG, TE_NEG});
+    int x = static_cast<int>(i64());
+    VS_TSITE(true, "{} {}", e, x);
+    break;
+  }
+  case 6:
+  {
+    void const* p = r.chance(1, 3) ? nullptr : reinterpret_cast<void const*>(static_cast<uintptr_t>(r.next() >> 16));
+    int x = static_cast<int>(r.below(100));
+    VS_TSITE(true, "{} {}", p, x);
+    break;
+  }
+  case 7:
+  {
+    std::string a = typed_str(r, 40, sflav == 2 ? 0 : sflav);
+    char const* ca = a.c_str();
+    VS_TSITE(true, "{}", ca);
+    a.assign(a.size(), '!');
+    break;
+  }
+  case 8:
+  {
+    std::string a = typed_str(r, 30, 1), b = typed_str(r, 30, 0);
+    char const* ca = a.c_str();
+    char* cb = b.data();
+    int64_t x = i64();
+    VS_TSITE(true, "[{}] {} [{}]", ca, x, cb);
+    a.assign(a.size(), '!');
+    b.assign(b.size(), '!');
+    break;
+  }
+  case 9:
+  {
+    // null C string: call-site formatting is itself undefined (fmt throws); quill encodes it as an empty string
+    char const* np = nullptr;
+    int x = static_cast<int>(r.below(1000));
+    c11ok = true;
+    expected = fmtquill::format("#{}# <{}> {}", id, "", x);
+    begin_invoke();
+    sim::AllocCounters const before = sim::alloc_counters();
+    QUILL_LOG_INFO(lg, "#{}# <{}> {}", id, np, x);
+    sim::AllocCounters const after = sim::alloc_counters();
+    mallocs = after.mallocs - before.mallocs;
+    mmaps = after.mmaps - before.mmaps;
+    break;
+  }
+  case 10:
+  {
+    // char arrays: terminated and unterminated (every byte used)
+    char a[8];
+    char b[5];
+    std::string sa = payload(r.next(), r.chance(1, 2) ? 8 : static_cast<size_t>(r.range(0, 7)));
+    std::memset(a, 0, sizeof(a));
+    std::memcpy(a, sa.data(), sa.size());
+    std::string sb = payload(r.next(), r.chance(1, 2) ? 5 : static_cast<size_t>(r.range(0, 4)));
+    std::memset(b, 0, sizeof(b));
+    std::memcpy(b, sb.data(), sb.size());
+    c11ok = true;
+    expected = fmtquill::format("#{}# {}|{}", id, sa, sb);
+    begin_invoke();
+    sim::AllocCounters const before = sim::alloc_counters();
+    QUILL_LOG_INFO(lg, "#{}# {}|{}", id, a, b);
+    sim::AllocCounters const after = sim::alloc_counters();
+    mallocs = after.mallocs - before.mallocs;
+    mmaps = after.mmaps - before.mmaps;
+    std::memset(a, '!', sizeof(a));
+    std::memset(b, '!', sizeof(b));
+    break;
+  }
+  case 11:
+  {
+    std::string a = typed_str(r, 60, sflav);
+    VS_TSITE(true, "{}", a);
+    a.assign(a.size(), '!');
+    a.clear();
+    a.shrink_to_fit();
+    break;
+  }
+  case 12:
+  {
+    std::string a = typed_str(r, 40, sflav), b = typed_str(r, 40, 1);
+    std::string_view va{a}, vb{b};
+    VS_TSITE(true, "{}/{}", va, vb);
+    a.assign(a.size(), '!');
+    b.assign(b.size(), '!');
+    break;
+  }
+  case 13:
+  {
+    std::string a = typed_str(r, 30, sflav), b = typed_str(r, 30, 0), c = typed_str(r, 30, 1);
+    int64_t x = i64();
+    double y = dbl();
+    VS_TSITE(true, "{} {} {} {} {}", a, x, std::string_view{b}, y, c.c_str());
+    a.assign(a.size(), '!');
+    b.assign(b.size(), '!');
+    c.assign(c.size(), '!');
+    break;
+  }
+  case 14:
+  {
+    // exactly twelve C strings: the inline capacity of the size cache
+    std::string v[12];
+    for (auto& e : v)
+    {
+      e = typed_str(r, 12, 1);
+    }
+    VS_TSITE(true, "{} {} {} {} {} {} {} {} {} {} {} {}", v[0].c_str(), v[1].c_str(), v[2].c_str(), v[3].c_str(), v[4].c_str(),
+             v[5].c_str(), v[6].c_str(), v[7].c_str(), v[8].c_str(), v[9].c_str(), v[10].c_str(), v[11].c_str());
+    for (auto& e : v)
+    {
+      e.assign(e.size(), '!');
+    }
+    break;
+  }
+  case 15:
+  {
+    // fourteen C strings: the size cache spills to the heap (outside C11's bound of twelve)
+    std::string v[14];
+    for (auto& e : v)
+    {
+      e = typed_str(r, 10, 1);
+    }
+    VS_TSITE(false, "{} {} {} {} {} {} {} {} {} {} {} {} {} {}", v[0].c_str(), v[1].c_str(), v[2].c_str(), v[3].c_str(),
+             v[4].c_str(), v[5].c_str(), v[6].c_str(), v[7].c_str(), v[8].c_str(), v[9].c_str(), v[10].c_str(), v[11].c_str(),
+             v[12].c_str(), v[13].c_str());
+    for (auto& e : v)
+    {
+      e.assign(e.size(), '!');
+    }
+    break;
+  }
+  case 16:
+  {
+    std::vector<int> v(static_cast<size_t>(r.range(0, 6)));
+    for (auto& e : v)
+    {
+      e = static_cast<int>(i64());
+    }
+    VS_TSITE(true, "{}", v);
+    v.assign(v.size(), -1);
+    v.clear();
+    break;
+  }
+  case 17:
+  {
+    std::vector<std::string> v(static_cast<size_t>(r.range(0, 5)));
+    for (auto& e : v)
+    {
+      e = typed_str(r, 14, 1);
+    }
+    VS_TSITE(true, "{}", v);
+    for (auto& e : v)
+    {
+      e.assign(e.size(), '!');
+    }
+    v.clear();
+    break;
+  }
+  case 18:
+  {
+    std::array<double, 3> a{dbl(), dbl(), dbl()};
+    std::array<std::string, 2> b{typed_str(r, 10, 0), typed_str(r, 10, 1)};
+    VS_TSITE(true, "{} {}", a, b);
+    b[0].assign(b[0].size(), '!');
+    break;
+  }
+  case 19:
+  {
+    std::deque<int64_t> d;
+    std::list<uint32_t> l;
+    for (int k = static_cast<int>(r.range(0, 5)); k > 0; --k)
+    {
+      d.push_back(i64());
+      l.push_back(static_cast<uint32_t>(u64()));
+    }
+    VS_TSITE(true, "{} {}", d, l);
+    d.clear();
+    l.clear();
+    break;
+  }
+  case 20:
+  {
+    std::forward_list<int> f;
+    std::set<std::string> st;
+    for (int k = static_cast<int>(r.range(0, 4)); k > 0; --k)
+    {
+      f.push_front(static_cast<int>(i64()));
+      st.insert(typed_str(r, 8, 0));
+    }
+    VS_TSITE(true, "{} {}", f, st);
+    f.clear();
+    st.clear();
+    break;
+  }
+  case 21:
+  {
+    std::map<std::string, int> m;
+    for (int k = static_cast<int>(r.range(0, 4)); k > 0; --k)
+    {
+      m[typed_str(r, 8, 0)] = static_cast<int>(i64());
+    }
+    VS_TSITE(true, "{}", m);
+    m.clear();
+    break;
+  }
+  case 22:
+  {
+    std::unordered_map<int, std::string> m;
+    if (r.chance(2, 3))
+    {
+      m[static_cast<int>(r.below(1000))] = typed_str(r, 10, 1); // at most one element: iteration order cannot matter
+    }
+    std::unordered_set<int64_t> us;
+    if (r.chance(1, 2))
+    {
+      us.insert(i64());
+    }
+    VS_TSITE(true, "{} {}", m, us);
+    m.clear();
+    break;
+  }
+  case 23:
+  {
+    std::optional<int> a = r.chance(1, 2) ? std::optional<int>{static_cast<int>(i64())} : std::nullopt;
+    std::optional<std::string> b = r.chance(1, 2) ? std::optional<std::string>{typed_str(r, 12, 1)} : std::nullopt;
+    VS_TSITE(true, "{} {}", a, b);
+    b.reset();
+    break;
+  }
+  case 24:
+  {
+    std::pair<int, std::string> p{static_cast<int>(i64()), typed_str(r, 12, 1)};
+    std::pair<double, uint64_t> q{dbl(), u64()};
+    VS_TSITE(true, "{} {}", p, q);
+    p.second.assign(p.second.size(), '!');
+    break;
+  }
+  case 25:
+  {
+    std::tuple<int, std::string, double> t{static_cast<int>(i64()), typed_str(r, 12, 1), dbl()};
+    std::tuple<> e{};
+    VS_TSITE(true, "{} {}", t, e);
+    std::get<1>(t).assign(std::get<1>(t).size(), '!');
+    break;
+  }
+  case 26:
+  {
+    std::chrono::milliseconds ms{r.range(-100000, 100000)};
+    std::chrono::seconds sec{r.range(0, 1000000)};
+    std::chrono::nanoseconds ns{static_cast<int64_t>(r.next() >> 20)};
+    VS_TSITE(true, "{} {} {}", ms, sec, ns);
+    break;
+  }
+  case 27:
+  {
+    std::filesystem::path p = std::filesystem::path("/tmp") / typed_str(r, 10, 0) / (typed_str(r, 6, 0) + ".log");
+    VS_TSITE(false, "{}", p); // copied through a temporary string by design
+    p.clear();
+    break;
+  }
+  case 28:
+  {
+    std::vector<std::vector<int>> v(static_cast<size_t>(r.range(0, 3)));
+    for (auto& e : v)
+    {
+      e.resize(static_cast<size_t>(r.range(0, 3)));
+      for (auto& x : e)
+      {
+        x = static_cast<int>(i64());
+      }
+    }
+    VS_TSITE(true, "{}", v);
+    v.clear();
+    break;
+  }
+  case 29:
+  {
+    std::vector<std::pair<int, std::string>> v(static_cast<size_t>(r.range(0, 3)));
+    for (auto& e : v)
+    {
+      e = {static_cast<int>(i64()), typed_str(r, 8, 1)};
+    }
+    std::map<int, std::vector<std::string>> m;
+    if (r.chance(1, 2))
+    {
+      m[1] = {typed_str(r, 6, 0), typed_str(r, 6, 1)};
+    }
+    VS_TSITE(true, "{} {}", v, m);
+    v.clear();
+    m.clear();
+    break;
+  }
+  case 30:
+  {
+    std::optional<std::vector<std::string>> o;
+    if (r.chance(1, 2))
+    {
+      o = std::vector<std::string>{typed_str(r, 6, 1), typed_str(r, 6, 0)};
+    }
+    std::tuple<std::vector<int>, std::pair<std::string, int>> t{{1, static_cast<int>(i64())}, {typed_str(r, 6, 0), 3}};
+    VS_TSITE(true, "{} {}", o, t);
+    o.reset();
+    break;
+  }
+  case 31:
+  {
+    TcDeferred d{i64(), dbl(), {}};
+    std::string tg = payload(r.next(), static_cast<size_t>(r.range(0, 7)));
+    std::memcpy(d.tag, tg.data(), tg.size());
+    VS_TSITE(true, "{}", d);
+    d.a = -1;
+    std::memset(d.tag, '!', 7);
+    break;
+  }
+  case 32:
+  {
+    TcDeferred d{i64(), dbl(), {}};
+    std::string a = typed_str(r, 20, sflav);
+    int const tail = static_cast<int>(i64());
+    VS_TSITE(true, "{} {} {}", a, d, tail);
+    a.assign(a.size(), '!');
+    d.b = 0;
+    break;
+  }
+  case 33:
+  {
+    DirectType d{typed_str(r, 10, 0), static_cast<int>(i64())};
+    VS_TSITE(false, "{}", d); // direct-format types are formatted at the call site by design
+    d.name.assign(d.name.size(), '!');
+    break;
+  }
+  case 34:
+  {
+    AllocDeferred d{typed_str(r, 12, 0), std::vector<int>(static_cast<size_t>(r.range(0, 5)))};
+    VS_TSITE(false, "{}", d); // its copy constructor allocates (excluded by its documented design)
+    d.s.assign(d.s.size(), '!');
+    d.v.clear();
+    break;
+  }
+  case 35:
+  {
+    std::string a = typed_str(r, 200, sflav); // a long string: lands near buffer boundaries / forces growth
+    std::vector<int> v(static_cast<size_t>(r.range(0, 20)), static_cast<int>(i64()));
+    VS_TSITE(true, "{} {}", a, v);
+    a.assign(a.size(), '!');
+    v.clear();
+    break;
+  }
+  case 36:
+  {
+    int64_t a = i64();
+    std::string b = typed_str(r, 25, sflav);
+    uint8_t c = static_cast<uint8_t>(u64());
+    std::string d2 = typed_str(r, 25, 1);
+    double e = dbl();
+    VS_TSITE(true, "{:>8}|{:<30}|{:03}|{:^12}|{:10.2f}", a, b, c, d2, e);
+    b.assign(b.size(), '!');
+    d2.assign(d2.size(), '!');
+    break;
+  }
+  case 37:
+  {
+    std::vector<double> v(static_cast<size_t>(r.range(0, 4)));
+    for (auto& e : v)
+    {
+      e = dbl();
+    }
+    std::array<int, 4> a{static_cast<int>(i64()), 0, -1, 7};
+    VS_TSITE(true, "{} {}", v, a);
+    v.clear();
+    break;
+  }
+  case 38:
+  {
+    std::string a = typed_str(r, 16, 2); // embedded NUL
+    std::string_view va{a};
+    int x = static_cast<int>(i64());
+    VS_TSITE(true, "{}|{}|{}", a, va, x);
+    a.assign(a.size(), '!');
+    break;
+  }
+  case 39:
+  {
+    std::set<int> a;
+    std::map<int, double> b;
+    for (int k = static_cast<int>(r.range(0, 5)); k > 0; --k)
+    {
+      a.insert(static_cast<int>(r.range(-50, 50)));
+      b[static_cast<int>(r.range(0, 9))] = dbl();
+    }
+    VS_TSITE(true, "{} {}", a, b);
+    a.clear();
+    b.clear();
+    break;
+  }
+  case 40:
+  {
+    std::optional<std::pair<int, std::string>> o;
+    if (r.chance(2, 3))
+    {
+      o = std::make_pair(static_cast<int>(i64()), typed_str(r, 10, 1));
+    }
+    VS_TSITE(true, "{}", o);
+    o.reset();
+    break;
+  }
+  case 41:
+  {
+    std::string a = typed_str(r, 10, 0);
+    char const* c1 = a.c_str();
+    std::string b = typed_str(r, 10, 3);
+    VS_TSITE(true, "{} {} {} {}", c1, b, c1, std::string_view{b});
+    a.assign(a.size(), '!');
+    b.assign(b.size(), '!');
+    break;
+  }
+  case 42:
+  {
+    uint64_t a = u64();
+    int b = static_cast<int>(i64());
+    VS_TSITE(true, "{:#x} {:#b} {:o} {:c}", a, static_cast<uint8_t>(b), static_cast<uint32_t>(b), static_cast<char>('A' + (b & 15)));
+    break;
+  }
+  default:
+  {
+    std::vector<std::string> v(static_cast<size_t>(r.range(1, 4)));
+    for (auto& e : v)
+    {
+      e = typed_str(r, 10, 3);
+    }
+    std::string tail = typed_str(r, 10, 1);
+    VS_TSITE(true, "{} {}", v, tail.c_str());
+    v.clear();
+    tail.assign(tail.size(), '!');
+    break;
+  }
+  }
+  note_thread_logged(tid);
+  size_t const cap_after = Fe::get_thread_local_queue_capacity();
+  record(EV_LOG_RETURN, id, 1, static_cast<int64_t>(cap_after));
+  // C11: allocations on the calling thread around the call (first call of a thread and capacity changes are excused)
+  record(EV_ALLOC, id, static_cast<int64_t>(mallocs), static_cast<int64_t>(mmaps),
+         (first_call ? 1 : 0) | ((cap_before != cap_after) ? 2 : 0) | (c11ok ? 4 : 0));
+}
+
 // Real LOG_* macros (C16): the level check and the argument evaluation are the library's own.
 // The first argument carries a side effect, so the history shows whether arguments were evaluated.
 template <class FO>
